@@ -70,33 +70,23 @@ def handler_wiring(ctx, r1, pr, f, bb):
             sorted(ctx.roots(qv[4][0])), sorted(ctx.roots(qv[4][3]))))
     else:
         r1.site("reserves ⊢ PAIR_INFO.query_pools(env.contract.address) in the executing call")
-    # selection guards
-    sel = {}
-    for g in common.bool_guards(P, swap):
-        c = g.cond
-        if c[0] == "cmp" and c[1] in ("equal", "eq") and len(c[2]) == 2:
-            rs = [set(ctx.roots(x)) for x in c[2]]
-            for x, y in ((rs[0], rs[1]), (rs[1], rs[0])):
-                if x == {P_(swap, offer_i, ".info")} and len(y) == 1:
-                    m = re.match(r"^%s\[([01])\]\.info$" % re.escape(QP), list(y)[0])
-                    if m:
-                        sel[int(m.group(1))] = g
-                        if c[1] == "equal":
-                            pass
-    if sorted(sel) != [0, 1]:
-        r1.fail("C01.R1:selection", swap.path, swap.span, "offer/ask are not selected by comparing the named offer asset with pools[0].info and pools[1].info (found indices %s)" % sorted(sel))
+    # selection: branch form (two equality guards) or index form (position over the pools)
+    from .. import selection
+    try:
+        S = selection.PoolSelection(ctx, swap, offer_i, QP)
+    except AnchorMissing as e:
+        r1.fail("C01.R1:selection", swap.path, swap.span, str(e))
         return
     lem = lemmas.check_equal(ctx, r1)
-    regions = {k: common.region_of_edge(body, g.edge(True)) for k, g in sel.items()}
     # the "neither" path errs
-    if not c02.pool_membership(ctx, swap, offer_i):
+    if not S.rejects_foreign():
         r1.fail("C01.R1:unknown-asset", swap.path, swap.span, "an offer asset that is neither pool asset is not rejected (it would be priced as one of them)")
     else:
-        r1.site("offer asset matching neither pool => Err")
-    # arguments evaluated along each selection branch
+        r1.site("offer asset matching neither pool => Err (%s form)" % S.form)
+    # arguments evaluated in each selection case
     for ai, a in enumerate(t["args"][:2]):
-        for k in (0, 1):
-            v = P.val_operand_in(swap, (bb, n), a, regions[k])
+        for k in S.cases():
+            v = S.value((bb, n), a, k)
             rs = set(ctx.roots(v))
             if ai == 0:
                 subs = [x for x in common.walk(v) if x[0] == "call" and isinstance(x[3], str) and generic_path(x[3]).endswith("Uint128::checked_sub")]
@@ -107,14 +97,14 @@ def handler_wiring(ctx, r1, pr, f, bb):
                     ok = pg is not None and common.fail_edge_only_errors(P, swap, pg[2])[0]
                 if not ok:
                     r1.fail("C01.R1:offer-reserve:%d" % k, swap.path, common.span_of_block_term(swap, bb),
-                            "branch `offer is pools[%d]`: offer reserve ⊢ %s, expected pools[%d].amount - offer.amount by aborting subtraction (the offer is already in the balance)" % (k, sorted(rs), k))
+                            "case `offer is pools[%d]`: offer reserve ⊢ %s, expected pools[%d].amount - offer.amount by aborting subtraction (the offer is already in the balance)" % (k, sorted(rs), k))
                 else:
-                    r1.site("offer == pools[%d]: offer reserve = pools[%d].amount - offer.amount (aborting)" % (k, k))
+                    r1.site("%s: offer reserve = pools[%d].amount - offer.amount (aborting)" % (S.describe(k), k))
             else:
                 if rs != {"%s[%d].amount" % (QP, 1 - k)}:
-                    r1.fail("C01.R1:ask-reserve:%d" % k, swap.path, common.span_of_block_term(swap, bb), "branch `offer is pools[%d]`: ask reserve ⊢ %s, expected pools[%d].amount" % (k, sorted(rs), 1 - k))
+                    r1.fail("C01.R1:ask-reserve:%d" % k, swap.path, common.span_of_block_term(swap, bb), "case `offer is pools[%d]`: ask reserve ⊢ %s, expected pools[%d].amount" % (k, sorted(rs), 1 - k))
                 else:
-                    r1.site("offer == pools[%d]: ask reserve = pools[%d].amount" % (k, 1 - k))
+                    r1.site("%s: ask reserve = pools[%d].amount" % (S.describe(k), 1 - k))
     cv = P.val_call(swap, body, bb)
     if set(ctx.roots(cv[4][2])) != {P_(swap, offer_i, ".amount")}:
         r1.fail("C01.R1:offer-amount", swap.path, common.span_of_block_term(swap, bb), "priced offer amount ⊢ %s, expected the named offer amount" % sorted(ctx.roots(cv[4][2])))
@@ -130,13 +120,13 @@ def handler_wiring(ctx, r1, pr, f, bb):
     for cb in pr.calls_to(swap, tc):
         tt = body.blocks[cb]["term"]
         nn = len(body.blocks[cb]["stmts"])
-        for k in (0, 1):
-            v = P.val_operand_in(swap, (cb, nn), tt["args"][0], regions[k])
+        for k in S.cases():
+            v = S.value((cb, nn), tt["args"][0], k)
             inf = set(ctx.roots(v, (("f", "info"),)))
             if inf != {"%s[%d].info" % (QP, 1 - k)}:
-                r1.fail("C01.R1:payout-asset:%d" % k, swap.path, common.span_of_block_term(swap, cb), "branch `offer is pools[%d]`: payout asset ⊢ %s, expected pools[%d].info" % (k, sorted(inf), 1 - k))
+                r1.fail("C01.R1:payout-asset:%d" % k, swap.path, common.span_of_block_term(swap, cb), "case `offer is pools[%d]`: payout asset ⊢ %s, expected pools[%d].info" % (k, sorted(inf), 1 - k))
             else:
-                r1.site("offer == pools[%d]: payout asset = pools[%d].info" % (k, 1 - k))
+                r1.site("%s: payout asset = pools[%d].info" % (S.describe(k), 1 - k))
 
 
 def _run(ctx):
